@@ -706,6 +706,13 @@ func jgenWrap(t *rapid.T, v jv, label string) jv {
 		v = jgenWide(t, v, label)
 	}
 	n := rapid.IntRange(0, 3).Draw(t, label+"_wrapN")
+	if rapid.IntRange(0, 19).Draw(t, label+"_deep") == 0 {
+		// many enclosing containers (around and beyond 32, 64, 128, 256): recursion bounds and
+		// per-depth scratch space live behind such depths. The innermost value gets an unsorted object
+		// around it so that what happens down there shows in the canonical form.
+		v = jobj("z", jnum(1), "m", v, "a", jnum(2))
+		n = rapid.SampledFrom([]int{30, 31, 32, 33, 62, 63, 64, 65, 66, 100, 127, 128, 129, 200, 255, 256, 257, 300}).Draw(t, label+"_deepN")
+	}
 	for i := 0; i < n; i++ {
 		switch rapid.IntRange(0, 4).Draw(t, label+"_wrapK") {
 		case 0, 1:
